@@ -359,7 +359,7 @@ theorem gen_C11_mask (k : Nat) (P : List Char → Bool) (fuel : Nat) (verbose : 
     (∀ r, Gen.find_vertices fuel (.int (k : Int)) (tablePV k P) (.bool verbose) = .ok r →
         ∃ m : Mask, r = maskPV false m ∧ m.size = 4 ^ k ∧
           (∀ i, i < 4 ^ k → m.getD i false = P (kmerOf k i)) ∧
-          (∀ i, i < 4 ^ k → pyIndex r (.int (i : Int)) = .ok (.bool (P (kmerOf k i)))) ∧
+          (∀ i : Nat, i < 4 ^ k → pyIndex r (.int (i : Int)) = .ok (.bool (P (kmerOf k i)))) ∧
           ∃ i, i < 4 ^ k ∧ P (kmerOf k i) = true) ∧
     (∀ e, Gen.find_vertices fuel (.int (k : Int)) (tablePV k P) (.bool verbose) = .error e →
         e = .valueError ∧ ∀ i, i < 4 ^ k → P (kmerOf k i) = false) := by
@@ -381,12 +381,12 @@ theorem gen_C11_mask_iff (k : Nat) (P : List Char → Bool) (fuel : Nat) (verbos
   cases hr : Gen.find_vertices fuel (.int (k : Int)) (tablePV k P) (.bool verbose) with
   | ok r =>
     obtain ⟨m, -, -, -, -, i, hi, hp⟩ := h1 r hr
-    refine ⟨⟨fun _ => ⟨i, hi, hp⟩, fun _ => ⟨r, rfl⟩⟩, ⟨fun h => by cases h, fun h => ?_⟩⟩
+    refine ⟨⟨fun _ => ⟨i, hi, hp⟩, fun _ => ⟨r, rfl⟩⟩, ⟨fun h => (by cases h), fun h => ?_⟩⟩
     rw [h i hi] at hp
     cases hp
   | error e =>
     obtain ⟨rfl, hall⟩ := h2 e hr
-    refine ⟨⟨fun ⟨r, h⟩ => by cases h, fun ⟨i, hi, hp⟩ => ?_⟩, ⟨fun _ => hall, fun _ => rfl⟩⟩
+    refine ⟨⟨fun ⟨r, h⟩ => (by cases h), fun ⟨i, hi, hp⟩ => ?_⟩, ⟨fun _ => hall, fun _ => rfl⟩⟩
     rw [hall i hi] at hp
     cases hp
 
@@ -402,7 +402,7 @@ theorem GraphCor.gc_find_gen : Gen.find_vertices 6 (.int 2) (tablePV 2 gcFilter)
 
 example : ∃ m : Mask, maskPV false gcMask = maskPV false m ∧ m.size = 4 ^ 2 ∧
     (∀ i, i < 4 ^ 2 → m.getD i false = gcFilter (kmerOf 2 i)) ∧
-    (∀ i, i < 4 ^ 2 → pyIndex (maskPV false gcMask) (.int (i : Int)) = .ok (.bool (gcFilter (kmerOf 2 i)))) ∧
+    (∀ i : Nat, i < 4 ^ 2 → pyIndex (maskPV false gcMask) (.int (i : Int)) = .ok (.bool (gcFilter (kmerOf 2 i)))) ∧
     ∃ i, i < 4 ^ 2 ∧ gcFilter (kmerOf 2 i) = true :=
   (gen_C11_mask 2 gcFilter 6 false (by decide)).1 _ gc_find_gen
 
@@ -444,5 +444,528 @@ example : ∃ a : Acc, accPV gcBalanced2 = accPV a ∧ a.size = 4 ^ 2 ∧
     (∀ u j, u < 4 ^ 2 → j < 4 → ((u * 4 + j) % 4 ^ 2) % 4 = j) ∧
     ∃ i, i < 4 ^ 2 ∧ gcMask.getD i false = true :=
   (gen_C11_valid_graph 2 gcMask false 0 false (by decide) (by decide)).1 _ gc_valid_gen
+
+/-! ## C03 — the coding graph is the largest closed sub-graph, or a ValueError -/
+
+/-- for every mask of `4^k` cells (boolean or 0/1 integers) and every threshold `1 ≤ t`: what the generated
+`connect_coding_graph` returns is the model's result — the tuple `(d, accessor)` where the accessor is the
+sub-graph induced on the LARGEST closed subset `s` of the mask (`IsLargestClosed`), the vertex description `d`
+denotes exactly `s` (`Denotes`, `Listed`), and `s` is exactly the set of vertices that have arcs, and is not
+empty; it raises `ValueError` (and nothing else — in particular no loop runs out of the fuel `4^k + 2`)
+exactly when every closed subset of the mask is empty (`C03_holds` = `C03_t1` + `C03_gfp` about the generated
+code). -/
+theorem gen_C03_holds (k t : Nat) (m : Mask) (asInt : Bool) (fuel : Nat) (verbose : Bool)
+    (hm : m.size = 4 ^ k) (hk : 1 ≤ k) (ht : 1 ≤ t) (hf : 4 ^ k + 2 ≤ fuel) :
+    (∀ r, Gen.connect_coding_graph fuel (.int (k : Int)) (maskPV asInt m) (.int (t : Int)) (.bool verbose) = .ok r →
+        ∃ (s : Mask) (d : PV), r = .tup [d, accPV (inducedAccessor k s)] ∧
+          connectCodingGraph k m t = .ok (s.indices, inducedAccessor k s) ∧
+          IsLargestClosed k t m s ∧ Denotes d s.indices (4 ^ k) t ∧
+          (∀ v, Listed d t v ↔ s.getD v false = true) ∧
+          s.indices = (List.range (4 ^ k)).filter
+            (fun (v : Nat) => decide ((inducedAccessor k s).live (v : Int) ≠ [])) ∧
+          s.indices ≠ []) ∧
+    (∀ e, Gen.connect_coding_graph fuel (.int (k : Int)) (maskPV asInt m) (.int (t : Int)) (.bool verbose) = .error e →
+        e = .valueError ∧ ∀ s : Mask, s.size = 4 ^ k → s.Sub m → ClosedFor k t s → s.indices = []) := by
+  obtain ⟨h1, h2⟩ := model_C03 k t m hm hk ht
+  refine ⟨fun r h => ?_, fun e h => h2 e (ccg_of_error hm hf h)⟩
+  obtain ⟨vs, a, d, hc, rfl, hden⟩ := ccg_of_ok hm hf h
+  obtain ⟨s, hs, rfl, rfl, hv, hne⟩ := h1 vs a hc
+  refine ⟨s, d, rfl, hc, hs, hden, fun v => ?_, ?_, hne⟩
+  · rw [listed_iff hden (indices_lt hs.1)]
+    exact Trim.Mask.mem_indices
+  · rw [← C14_vertices k _ (C13_wfdb_induced k s)]
+    exact hv
+
+/-- … hence the call raises `ValueError` iff the mask has no non-empty closed subset, and returns otherwise. -/
+theorem gen_C03_error_iff (k t : Nat) (m : Mask) (asInt : Bool) (fuel : Nat) (verbose : Bool)
+    (hm : m.size = 4 ^ k) (hk : 1 ≤ k) (ht : 1 ≤ t) (hf : 4 ^ k + 2 ≤ fuel) :
+    Gen.connect_coding_graph fuel (.int (k : Int)) (maskPV asInt m) (.int (t : Int)) (.bool verbose) =
+        .error .valueError ↔
+      ∀ s : Mask, s.size = 4 ^ k → s.Sub m → ClosedFor k t s → s.indices = [] := by
+  obtain ⟨h1, h2⟩ := gen_C03_holds k t m asInt fuel verbose hm hk ht hf
+  constructor
+  · intro h
+    exact (h2 _ h).2
+  · intro hall
+    cases hr : Gen.connect_coding_graph fuel (.int (k : Int)) (maskPV asInt m) (.int (t : Int)) (.bool verbose) with
+    | error e => rw [(h2 e hr).1]
+    | ok r =>
+      obtain ⟨s, d, -, -, ⟨hs1, hs2, hs3, -⟩, -, -, -, hne⟩ := h1 r hr
+      exact absurd (hall s hs1 hs2 hs3) hne
+
+/-- `connect_coding_graph(2, mask, 2)` of the generated code on the GC-balanced mask returns `(d, accessor)` with
+the GC-balanced accessor, `d` a mask denoting all eight vertices. -/
+theorem GraphCor.gc_model : connectCodingGraph 2 gcMask 2 = .ok ([1, 2, 4, 7, 8, 11, 13, 14], gcBalanced2) := by
+  decide +kernel
+
+theorem GraphCor.gc_ccg : ∃ d, Gen.connect_coding_graph 18 (.int 2) (maskPV false gcMask) (.int 2) (.bool false) =
+    .ok (.tup [d, accPV gcBalanced2]) ∧ Denotes d [1, 2, 4, 7, 8, 11, 13, 14] (4 ^ 2) 2 :=
+  ccg_of_model_ok (k := 2) (t := 2) (by decide) (by decide) gc_model
+
+theorem GraphCor.gc_listed {d : PV} (hd : Denotes d [1, 2, 4, 7, 8, 11, 13, 14] (4 ^ 2) 2) : Listed d 2 1 :=
+  (listed_iff hd (by decide)).2 (by decide)
+
+example : ∃ d, ∃ (s : Mask) (d' : PV), PV.tup [d, accPV gcBalanced2] = .tup [d', accPV (inducedAccessor 2 s)] ∧
+    connectCodingGraph 2 gcMask 2 = .ok (s.indices, inducedAccessor 2 s) ∧
+    IsLargestClosed 2 2 gcMask s ∧ Denotes d' s.indices (4 ^ 2) 2 ∧
+    (∀ v, Listed d' 2 v ↔ s.getD v false = true) ∧
+    s.indices = (List.range (4 ^ 2)).filter (fun (v : Nat) => decide ((inducedAccessor 2 s).live (v : Int) ≠ [])) ∧
+    s.indices ≠ [] := by
+  obtain ⟨d, hg, -⟩ := gc_ccg
+  exact ⟨d, (gen_C03_holds 2 2 gcMask false 18 false (by decide) (by decide) (by decide) (by decide)).1 _ hg⟩
+
+/-- a single vertex without a self-loop partner: no closed subset, `ValueError`. -/
+example : Gen.connect_coding_graph 6 (.int 1) (maskPV true #[true, false, false, false]) (.int 2) (.bool false) =
+    .error .valueError :=
+  ccg_of_model_error (k := 1) (t := 2) (by decide) (by decide) (by decide +kernel)
+
+/-- a smaller mask never yields a larger graph (`t ≥ 2`): if the generated `connect_coding_graph` returns
+`(d, a)` for `m` and `m ⊆ m'`, it returns some `(d', a')` for `m'` (any array kind, fuel from `4^k + 2` on,
+verbosity), every vertex `d` lists is listed by `d'`, and every arc of `a` is an arc of `a'` (`C03_mono` about
+the generated code). -/
+theorem gen_C03_mono (k t : Nat) (m m' : Mask) (asInt asInt' : Bool) (fuel fuel' : Nat) (verbose verbose' : Bool)
+    (d : PV) (a : Acc) (hm : m.size = 4 ^ k) (hm' : m'.size = 4 ^ k) (hk : 1 ≤ k) (ht : 2 ≤ t)
+    (hf : 4 ^ k + 2 ≤ fuel) (hf' : 4 ^ k + 2 ≤ fuel') (hsub : m.Sub m')
+    (h : Gen.connect_coding_graph fuel (.int (k : Int)) (maskPV asInt m) (.int (t : Int)) (.bool verbose) =
+      .ok (.tup [d, accPV a])) :
+    ∃ d' a', Gen.connect_coding_graph fuel' (.int (k : Int)) (maskPV asInt' m') (.int (t : Int)) (.bool verbose') =
+        .ok (.tup [d', accPV a']) ∧
+      (∀ v, Listed d t v → Listed d' t v) ∧
+      ∀ v j : Nat, v < 4 ^ k → j < 4 → 0 ≤ a.ent v j → a'.ent v j = a.ent v j := by
+  obtain ⟨vs, hc, -, hl, -, -⟩ := ccg_facts hk hm (by omega) hf h
+  obtain ⟨vs', a', hc', hmem, hent⟩ := C03_mono k t m m' hm hm' hk ht hsub vs a hc
+  obtain ⟨d', hg', hden'⟩ := ccg_of_model_ok (asInt := asInt') (fuel := fuel') (verbose := verbose') hm' hf' hc'
+  refine ⟨d', a', hg', fun v hv => ?_, fun v j hv hj => hent (v : Int) j (by exact_mod_cast hv) hj⟩
+  obtain ⟨vs'', hc'', -, hl'', -, -⟩ := ccg_facts hk hm' (by omega) hf' hg'
+  rw [hc'] at hc''
+  cases hc''
+  exact (hl'' v).2 (hmem v ((hl v).1 hv))
+
+theorem GraphCor.gc_sub_all : gcMask.Sub (Array.replicate 16 true) := by
+  intro v hv
+  have hlt : v < 16 := Trim.Mask.lt_size_of_getD hv
+  simp [Mask.has, Array.getD_eq_getD_getElem?, hlt]
+
+example : ∃ d, ∃ d' a', Gen.connect_coding_graph 20 (.int 2) (maskPV true (Array.replicate 16 true)) (.int 2)
+      (.bool true) = .ok (.tup [d', accPV a']) ∧
+    (∀ v, Listed d 2 v → Listed d' 2 v) ∧
+    ∀ v j : Nat, v < 4 ^ 2 → j < 4 → 0 ≤ gcBalanced2.ent v j → a'.ent v j = gcBalanced2.ent v j := by
+  obtain ⟨d, hg, -⟩ := gc_ccg
+  exact ⟨d, gen_C03_mono 2 2 gcMask (Array.replicate 16 true) false true 18 20 false true d gcBalanced2 (by decide)
+    (by decide) (by decide) (by decide) (by decide) (by decide) gc_sub_all hg⟩
+
+/-- `remove_useless` on ARBITRARY latter maps (a `dict` with distinct keys, successor lists arbitrary) and any
+threshold: the generated function returns (it does not run out of the fuel `arcs + 2`) a sub-map that is closed
+for the threshold, and that sub-map is the largest one (`C03_remove_useless` about the generated code). -/
+theorem gen_C03_remove_useless (m : LMap) (t fuel : Nat) (verbose : Bool) (hn : LMap.KeysNodup m)
+    (hf : m.arcs + 2 ≤ fuel) :
+    ∃ m', Gen.remove_useless fuel (lmapPV m) (.int (t : Int)) (.bool verbose) = .ok (lmapPV m') ∧
+      m'.SubOf m ∧ m'.ClosedT t ∧ ∀ c : LMap, c.SubOf m → c.ClosedT t → c.keys.Nodup → c.SubOf m' := by
+  obtain ⟨m', e, hs, hc, hmax⟩ := C03_remove_useless m t hn
+  exact ⟨m', tie_remove_useless m m' t fuel verbose hn e hf, hs, hc, hmax⟩
+
+example : ∃ m', Gen.remove_useless 7 (lmapPV [(0, [1, 2]), (1, []), (2, [3, 4]), (3, [0])]) (.int 1) (.bool false) =
+      .ok (lmapPV m') ∧
+    m'.SubOf [(0, [1, 2]), (1, []), (2, [3, 4]), (3, [0])] ∧ m'.ClosedT 1 ∧
+    ∀ c : LMap, c.SubOf [(0, [1, 2]), (1, []), (2, [3, 4]), (3, [0])] → c.ClosedT 1 → c.keys.Nodup → c.SubOf m' :=
+  gen_C03_remove_useless _ 1 7 false (by unfold LMap.KeysNodup; decide) (by decide)
+
+namespace GraphCor
+
+theorem lma_some_split {lm : LMap} {k t : Nat} {a : Acc} (h : latterMapToAccessor lm k (some t) = .ok a) :
+    ∃ lm', removeUseless lm t = .ok lm' ∧ latterMapToAccessor lm' k none = .ok a := by
+  cases hr : removeUseless lm t with
+  | error e => simp [latterMapToAccessor, hr, bind, Except.bind] at h
+  | ok lm' =>
+    refine ⟨lm', rfl, ?_⟩
+    simpa [latterMapToAccessor, hr, bind, Except.bind, pure, Except.pure] using h
+
+/-- a sub-map of a legal `dict` is a legal `dict` with the same key bound. -/
+theorem subOf_legal {lm lm' : LMap} {n : Nat} (hs : lm'.SubOf lm) (hn : LMap.KeysNodup lm)
+    (hk : ∀ p ∈ lm, p.1 < n) : LMap.KeysNodup lm' ∧ ∀ p ∈ lm', p.1 < n := by
+  refine ⟨hs.1.nodup hn, fun p hp => ?_⟩
+  have h1 : p.1 ∈ lm.keys := hs.1.subset (List.mem_map.2 ⟨p, hp, rfl⟩)
+  obtain ⟨q, hq, he⟩ := List.mem_map.1 h1
+  rw [← he]
+  exact hk q hq
+
+end GraphCor
+
+/-- trimming the latter map of the VALID graph to the same threshold gives the CODING graph (`t ≥ 2`): if the
+generated `connect_coding_graph` returned `(d, a)` for the mask, then the generated `connect_valid_graph` returns
+an accessor for it, `accessor_to_latter_map` turns that into a `dict`, and both
+`latter_map_to_accessor(…, threshold=t)` and `remove_useless(…, t)` followed by `latter_map_to_accessor(…)`
+return the accessor `a` (`C03_latter_map` about the generated code; `4·4^k + 2` units of fuel suffice for the
+trimming loop). -/
+theorem gen_C03_latter_map (k t : Nat) (m : Mask) (asInt : Bool) (gfuel : Nat) (gvb : Bool) (d : PV) (a : Acc)
+    (f1 f2 fuel f3 : Nat) (vb : Bool) (hm : m.size = 4 ^ k) (hk : 1 ≤ k) (ht : 2 ≤ t) (hgf : 4 ^ k + 2 ≤ gfuel)
+    (hf : 4 * 4 ^ k + 2 ≤ fuel)
+    (hg : Gen.connect_coding_graph gfuel (.int (k : Int)) (maskPV asInt m) (.int (t : Int)) (.bool gvb) =
+      .ok (.tup [d, accPV a])) :
+    ∃ (valid : Acc) (lm lm' : LMap),
+      Gen.connect_valid_graph f1 (.int (k : Int)) (maskPV asInt m) (.bool vb) = .ok (accPV valid) ∧
+      Gen.accessor_to_latter_map f2 (accPV valid) (.bool vb) = .ok (lmapPV lm) ∧
+      Gen.latter_map_to_accessor fuel (lmapPV lm) (.int (k : Int)) (.int (t : Int)) (.bool vb) = .ok (accPV a) ∧
+      Gen.remove_useless fuel (lmapPV lm) (.int (t : Int)) (.bool vb) = .ok (lmapPV lm') ∧
+      Gen.latter_map_to_accessor f3 (lmapPV lm') (.int (k : Int)) .none (.bool vb) = .ok (accPV a) := by
+  obtain ⟨vs, hc, -, -, -, -⟩ := ccg_facts hk hm (by omega) hgf hg
+  have hlma := C03_latter_map k t m hm hk ht vs a hc
+  obtain ⟨s, ⟨-, hsub, -, -⟩, -, rfl, -, hne⟩ := (model_C03 k t m hm hk (by omega)).1 vs a hc
+  -- the mask is not empty
+  have hcount : m.count > 0 := by
+    obtain ⟨v, hv⟩ := List.exists_mem_of_ne_nil _ hne
+    have hmv := hsub v (Trim.Mask.mem_indices.1 hv)
+    exact (Mask.count_pos_iff_disc m).2 ⟨v, Trim.Mask.lt_size_of_getD hmv, hmv⟩
+  have hvalid : connectValidGraph k (some m) = .ok (inducedAccessor k m) := by
+    simp only [connectValidGraph, hcount, if_true]
+  have hsz := induced_size k m
+  have hnd := keysNodup_latterMap (inducedAccessor k m)
+  have hkeys := keys_lt_latterMap hsz
+  have harcs : (accessorToLatterMap (inducedAccessor k m)).arcs + 2 ≤ fuel := by
+    have := arcs_latterMap_le (inducedAccessor k m)
+    rw [hsz] at this
+    omega
+  obtain ⟨lm', hr, hplain⟩ := lma_some_split hlma
+  obtain ⟨r', hr', hsubof, -, -⟩ := C03_remove_useless (accessorToLatterMap (inducedAccessor k m)) t hnd
+  rw [hr] at hr'
+  cases hr'
+  obtain ⟨hnd', hkeys'⟩ := subOf_legal hsubof hnd hkeys
+  refine ⟨inducedAccessor k m, accessorToLatterMap (inducedAccessor k m), lm', ?_, ?_, ?_, ?_, ?_⟩
+  · rw [tie_connect_valid_graph k m asInt f1 vb hm, hvalid]; rfl
+  · exact tie_accessor_to_latter_map _ f2 vb (induced_wf k m)
+  · rw [tie_latter_map_to_accessor_trim _ k t fuel vb hnd hkeys harcs, hlma]; rfl
+  · exact tie_remove_useless _ lm' t fuel vb hnd hr harcs
+  · rw [tie_latter_map_to_accessor_plain lm' k f3 vb hnd' hkeys', hplain]; rfl
+
+example : ∃ d, ∃ (valid : Acc) (lm lm' : LMap),
+    Gen.connect_valid_graph 0 (.int 2) (maskPV false gcMask) (.bool false) = .ok (accPV valid) ∧
+    Gen.accessor_to_latter_map 0 (accPV valid) (.bool false) = .ok (lmapPV lm) ∧
+    Gen.latter_map_to_accessor 66 (lmapPV lm) (.int 2) (.int 2) (.bool false) = .ok (accPV gcBalanced2) ∧
+    Gen.remove_useless 66 (lmapPV lm) (.int 2) (.bool false) = .ok (lmapPV lm') ∧
+    Gen.latter_map_to_accessor 0 (lmapPV lm') (.int 2) .none (.bool false) = .ok (accPV gcBalanced2) ∧
+    Denotes d [1, 2, 4, 7, 8, 11, 13, 14] (4 ^ 2) 2 := by
+  obtain ⟨d, hg, hd⟩ := gc_ccg
+  obtain ⟨valid, lm, lm', h1, h2, h3, h4, h5⟩ := gen_C03_latter_map 2 2 gcMask false 18 false d gcBalanced2 0 0 66 0
+    false (by decide) (by decide) (by decide) (by decide) (by decide) hg
+  exact ⟨d, valid, lm, lm', h1, h2, h3, h4, h5, hd⟩
+
+/-! ## C04 — encoding is total, dead-end free and tight on generated graphs
+
+`(d, a)` is what the generated `connect_coding_graph` returned for some mask and threshold `1 ≤ t`, and the start
+vertex `v` is one of the vertices `d` lists. -/
+
+namespace GraphCor
+
+/-- the strand of an `.ok` result of `encode` is a walk. -/
+theorem encode_isWalk {a : Acc} {tbl : Option Tbl} {v : Int} {bits : List Nat} {fast : Bool} {n fuel : Nat}
+    {s : List Char} {c : Option (List Char)} (hb : IsBits bits)
+    (h : encode a tbl v bits fast n fuel = .ok (s, c)) : isWalk a v s = true := by
+  cases fast with
+  | false => exact (cn_encodeNat_spec a tbl _ _ _ _ (cn_encode_normal_ok hb h).1).1
+  | true => exact (cf_encode_walkBitsD a tbl _ v bits s hb (cf_encode_fast_ok h).1).1
+
+/-- a start vertex listed by the description of a returned graph is a row index of the accessor. -/
+theorem listed_lt {k t : Nat} {m : Mask} {asInt : Bool} {fuel : Nat} {verbose : Bool} {d : PV} {a : Acc} {v : Nat}
+    (hk : 1 ≤ k) (hm : m.size = 4 ^ k) (ht : 1 ≤ t) (hf : 4 ^ k + 2 ≤ fuel)
+    (h : Gen.connect_coding_graph fuel (.int (k : Int)) (maskPV asInt m) (.int (t : Int)) (.bool verbose) =
+      .ok (.tup [d, accPV a])) (hv : Listed d t v) : a.WF ∧ a.size = 4 ^ k ∧ v < 4 ^ k := by
+  obtain ⟨vs, -, -, hl, hlt, hw⟩ := ccg_facts hk hm ht hf h
+  exact ⟨wf_of_wfdb hw, hw.1, hlt v ((hl v).1 hv)⟩
+
+end GraphCor
+
+/-- normal mode (`is_faster=False`): on a graph the generated `connect_coding_graph` returned, from any listed
+start vertex, for any message of bits and any table, the generated `encode` returns a strand — it does not
+raise, and does not run out of fuel for any fuel from `L·4^k + 3` on (`L·4^k + 1` loop iterations as in the
+model, two units for the calls `tie_encode` accounts for) — and the strand is a walk of the graph with at most
+`L·4^k` nucleotides (`C04_terminates_normal` about the generated code). -/
+theorem gen_C04_terminates_normal (k t : Nat) (m : Mask) (asInt : Bool) (gfuel : Nat) (gvb : Bool) (d : PV)
+    (a : Acc) (v : Nat) (tbl : Option Tbl) (bits : List Nat) (fuel : Nat) (vb : Bool)
+    (hk : 1 ≤ k) (hm : m.size = 4 ^ k) (ht : 1 ≤ t) (hgf : 4 ^ k + 2 ≤ gfuel)
+    (hg : Gen.connect_coding_graph gfuel (.int (k : Int)) (maskPV asInt m) (.int (t : Int)) (.bool gvb) =
+      .ok (.tup [d, accPV a]))
+    (hv : Listed d t v) (htbl : TblOK tbl a) (hb : IsBits bits) (hf : bits.length * 4 ^ k + 3 ≤ fuel) :
+    ∃ s, Gen.encode fuel (bitsPV bits) (accPV a) (.int (v : Int)) (.bool false) (.int 0) (tblPV tbl)
+        (.bool false) (.bool vb) = .ok (cstr s) ∧
+      isWalk a (v : Int) s = true ∧ s.length ≤ bits.length * 4 ^ k := by
+  obtain ⟨vs, hc, -, hl, hlt, hw⟩ := ccg_facts hk hm ht hgf hg
+  have hvs := (hl v).1 hv
+  obtain ⟨s, he, hwalk, hlen⟩ := C04_terminates_normal k t m vs a v tbl bits hk hm ht hc hvs hb
+  rw [hw.1] at hlen
+  exact ⟨s, gen_of_encode hw (hlt v hvs) htbl hb hf he, hwalk, hlen⟩
+
+example : ∃ s, Gen.encode 131 (bitsPV [0, 1, 0, 1, 0, 1, 0, 1]) (accPV gcBalanced2) (.int 1) (.bool false) (.int 0)
+      PV.none (.bool false) (.bool false) = .ok (cstr s) ∧
+    isWalk gcBalanced2 1 s = true ∧ s.length ≤ 8 * 4 ^ 2 := by
+  obtain ⟨d, hg, hd⟩ := gc_ccg
+  exact gen_C04_terminates_normal 2 2 gcMask false 18 false d gcBalanced2 1 none _ 131 false (by decide)
+    (by decide) (by decide) (by decide) hg (gc_listed hd) (tblOK_none _) msg_bits (by decide)
+
+/-- fast mode (`is_faster=True`), on generated graphs without out-degree 3 in reach of the start vertex
+(`C04_terminates_fast` about the generated code). -/
+theorem gen_C04_terminates_fast (k t : Nat) (m : Mask) (asInt : Bool) (gfuel : Nat) (gvb : Bool) (d : PV)
+    (a : Acc) (v : Nat) (tbl : Option Tbl) (bits : List Nat) (fuel : Nat) (vb : Bool)
+    (hk : 1 ≤ k) (hm : m.size = 4 ^ k) (ht : 1 ≤ t) (hgf : 4 ^ k + 2 ≤ gfuel)
+    (hg : Gen.connect_coding_graph gfuel (.int (k : Int)) (maskPV asInt m) (.int (t : Int)) (.bool gvb) =
+      .ok (.tup [d, accPV a]))
+    (hv : Listed d t v) (htbl : TblOK tbl a) (hb : IsBits bits) (h3 : a.NoDeg3From (v : Int))
+    (hf : bits.length * 4 ^ k + 3 ≤ fuel) :
+    ∃ s, Gen.encode fuel (bitsPV bits) (accPV a) (.int (v : Int)) (.bool true) (.int 0) (tblPV tbl)
+        (.bool false) (.bool vb) = .ok (cstr s) ∧
+      isWalk a (v : Int) s = true ∧ s.length ≤ bits.length * 4 ^ k := by
+  obtain ⟨vs, hc, -, hl, hlt, hw⟩ := ccg_facts hk hm ht hgf hg
+  have hvs := (hl v).1 hv
+  obtain ⟨s, he, hwalk, hlen⟩ := C04_terminates_fast k t m vs a v tbl bits hk hm ht hc hvs hb h3
+  rw [hw.1] at hlen
+  exact ⟨s, gen_of_encode hw (hlt v hvs) htbl hb hf he, hwalk, hlen⟩
+
+example : ∃ s, Gen.encode 131 (bitsPV [0, 1, 0, 1, 0, 1, 0, 1]) (accPV gcBalanced2) (.int 1) (.bool true) (.int 0)
+      PV.none (.bool false) (.bool true) = .ok (cstr s) ∧
+    isWalk gcBalanced2 1 s = true ∧ s.length ≤ 8 * 4 ^ 2 := by
+  obtain ⟨d, hg, hd⟩ := gc_ccg
+  exact gen_C04_terminates_fast 2 2 gcMask false 18 false d gcBalanced2 1 none _ 131 true (by decide)
+    (by decide) (by decide) (by decide) hg (gc_listed hd) (tblOK_none _) msg_bits gc_noDeg3 (by decide)
+
+/-- tightness in normal mode, for ANY well-formed graph and table: whatever the generated `encode` returns is
+a strand `s` (with a check iff `vt_length > 0`) that is a walk; if it is not empty, its last nucleotide is
+emitted at a branching vertex, and the product of the out-degrees met before the last step does not exceed the
+message value (`C04_tight_normal` about the generated code). -/
+theorem gen_C04_tight_normal (a : Acc) (tbl : Option Tbl) (v : Nat) (bits : List Nat) (n fuel : Nat) (vb : Bool)
+    (r : PV) (ha : a.WF) (hv : v < a.size) (ht : TblOK tbl a) (hb : IsBits bits) (hf : 2 * n + 3 ≤ fuel)
+    (h : Gen.encode fuel (bitsPV bits) (accPV a) (.int (v : Int)) (.bool false) (.int (n : Int)) (tblPV tbl)
+      (.bool false) (.bool vb) = .ok r) :
+    ∃ (s : List Char) (c : Option (List Char)), r = encResultPV (s, c) ∧ isWalk a (v : Int) s = true ∧
+      (s ≠ [] → 2 ≤ a.outDeg (walkEnd a (v : Int) s.dropLast) ∧
+        ((radices a (v : Int) s.dropLast).filter (· > 1)).foldl (· * ·) 1 ≤ bitToNumberInt bits) := by
+  obtain ⟨s, c, hr, he⟩ := encode_of_gen ha hv ht hb hf h
+  exact ⟨s, c, hr, encode_isWalk hb he, fun hs => C04_tight_normal a tbl v bits n fuel s c hb hs he⟩
+
+example (r : PV) (h : Gen.encode 200 (bitsPV [0, 1, 0, 1, 0, 1, 0, 1]) (accPV gcBalanced2) (.int 1) (.bool false)
+      (.int 5) PV.none (.bool false) (.bool false) = .ok r) :
+    ∃ (s : List Char) (c : Option (List Char)), r = encResultPV (s, c) ∧ isWalk gcBalanced2 1 s = true ∧
+      (s ≠ [] → 2 ≤ gcBalanced2.outDeg (walkEnd gcBalanced2 1 s.dropLast) ∧
+        ((radices gcBalanced2 1 s.dropLast).filter (· > 1)).foldl (· * ·) 1 ≤
+          bitToNumberInt [0, 1, 0, 1, 0, 1, 0, 1]) :=
+  gen_C04_tight_normal gcBalanced2 none 1 _ 5 200 false r gc_wf gc_lt (tblOK_none _) msg_bits (by decide) h
+
+/-- the hypothesis of the example is satisfiable: the generated `encode` returns `("TCTCTCT", "TAAGC")`. -/
+example : ∃ r, Gen.encode 200 (bitsPV [0, 1, 0, 1, 0, 1, 0, 1]) (accPV gcBalanced2) (.int 1) (.bool false)
+    (.int 5) PV.none (.bool false) (.bool false) = .ok r := ⟨_, gc_encode_normal⟩
+
+/-- consequently an `L`-bit message needs at most `L` nucleotides when every vertex met has at least two arcs
+(every threshold-2 graph) … (`C04_length_branching` about the generated code). -/
+theorem gen_C04_length_branching (a : Acc) (tbl : Option Tbl) (v : Nat) (bits : List Nat) (n fuel : Nat)
+    (vb : Bool) (r : PV) (ha : a.WF) (hv : v < a.size) (ht : TblOK tbl a) (hb : IsBits bits)
+    (hf : 2 * n + 3 ≤ fuel)
+    (h : Gen.encode fuel (bitsPV bits) (accPV a) (.int (v : Int)) (.bool false) (.int (n : Int)) (tblPV tbl)
+      (.bool false) (.bool vb) = .ok r) :
+    ∃ (s : List Char) (c : Option (List Char)), r = encResultPV (s, c) ∧
+      ((∀ i, i < s.length → 2 ≤ a.outDeg (walkEnd a (v : Int) (s.take i))) → s.length ≤ bits.length) := by
+  obtain ⟨s, c, hr, he⟩ := encode_of_gen ha hv ht hb hf h
+  exact ⟨s, c, hr, fun h2 => C04_length_branching a tbl v bits n fuel s c hb he h2⟩
+
+/-- … and at most `⌈L/2⌉` when every vertex met has four arcs (the complete graph)
+(`C04_length_complete` about the generated code). -/
+theorem gen_C04_length_complete (a : Acc) (tbl : Option Tbl) (v : Nat) (bits : List Nat) (n fuel : Nat)
+    (vb : Bool) (r : PV) (ha : a.WF) (hv : v < a.size) (ht : TblOK tbl a) (hb : IsBits bits)
+    (hf : 2 * n + 3 ≤ fuel)
+    (h : Gen.encode fuel (bitsPV bits) (accPV a) (.int (v : Int)) (.bool false) (.int (n : Int)) (tblPV tbl)
+      (.bool false) (.bool vb) = .ok r) :
+    ∃ (s : List Char) (c : Option (List Char)), r = encResultPV (s, c) ∧
+      ((∀ i, i < s.length → a.outDeg (walkEnd a (v : Int) (s.take i)) = 4) → s.length ≤ (bits.length + 1) / 2) := by
+  obtain ⟨s, c, hr, he⟩ := encode_of_gen ha hv ht hb hf h
+  exact ⟨s, c, hr, fun h4 => C04_length_complete a tbl v bits n fuel s c hb he h4⟩
+
+/-- every vertex of the GC-balanced graph has exactly two arcs: the 8-bit message needs at most 8 nucleotides
+(it needs 7). -/
+example (r : PV) (h : Gen.encode 200 (bitsPV [0, 1, 0, 1, 0, 1, 0, 1]) (accPV gcBalanced2) (.int 1) (.bool false)
+      (.int 5) PV.none (.bool false) (.bool false) = .ok r) :
+    ∃ (s : List Char) (c : Option (List Char)), r = encResultPV (s, c) ∧
+      ((∀ i, i < s.length → 2 ≤ gcBalanced2.outDeg (walkEnd gcBalanced2 1 (s.take i))) → s.length ≤ 8) :=
+  gen_C04_length_branching gcBalanced2 none 1 _ 5 200 false r gc_wf gc_lt (tblOK_none _) msg_bits (by decide) h
+
+example : ∀ i, i < "TCTCTCT".toList.length →
+    2 ≤ gcBalanced2.outDeg (walkEnd gcBalanced2 1 ("TCTCTCT".toList.take i)) := by decide +kernel
+
+/-- on the complete order-2 graph the 8-bit message needs at most 4 nucleotides. -/
+example (r : PV) (h : Gen.encode 200 (bitsPV [0, 1, 0, 1, 0, 1, 0, 1]) (accPV (getCompleteAccessor 2)) (.int 1)
+      (.bool false) (.int 0) PV.none (.bool false) (.bool false) = .ok r) :
+    ∃ (s : List Char) (c : Option (List Char)), r = encResultPV (s, c) ∧
+      ((∀ i, i < s.length → (getCompleteAccessor 2).outDeg (walkEnd (getCompleteAccessor 2) 1 (s.take i)) = 4) →
+        s.length ≤ (8 + 1) / 2) :=
+  gen_C04_length_complete (getCompleteAccessor 2) none 1 _ 0 200 false r (wf_of_wfdb (C13_complete 2 0 0
+    (by decide) (by decide)).2) (by decide +kernel) (tblOK_none _) msg_bits (by decide) h
+
+/-- tightness in fast mode, for ANY well-formed graph and table: the bits carried by the steps of the returned
+strand total `L` or `L + 1`, and the last nucleotide is emitted at an information-carrying (2- or 4-way) vertex
+(`C04_tight_fast` about the generated code). -/
+theorem gen_C04_tight_fast (a : Acc) (tbl : Option Tbl) (v : Nat) (bits : List Nat) (n fuel : Nat) (vb : Bool)
+    (r : PV) (ha : a.WF) (hv : v < a.size) (ht : TblOK tbl a) (hb : IsBits bits) (hf : 2 * n + 3 ≤ fuel)
+    (h : Gen.encode fuel (bitsPV bits) (accPV a) (.int (v : Int)) (.bool true) (.int (n : Int)) (tblPV tbl)
+      (.bool false) (.bool vb) = .ok r) :
+    ∃ (s : List Char) (c : Option (List Char)), r = encResultPV (s, c) ∧ isWalk a (v : Int) s = true ∧
+      (s ≠ [] →
+        ((walkBits a tbl (v : Int) s).length = bits.length ∨ (walkBits a tbl (v : Int) s).length = bits.length + 1) ∧
+        (a.outDeg (walkEnd a (v : Int) s.dropLast) = 2 ∨ a.outDeg (walkEnd a (v : Int) s.dropLast) = 4)) := by
+  obtain ⟨s, c, hr, he⟩ := encode_of_gen ha hv ht hb hf h
+  exact ⟨s, c, hr, encode_isWalk hb he, fun hs => C04_tight_fast a tbl v bits n fuel s c hb hs he⟩
+
+example (r : PV) (h : Gen.encode 200 (bitsPV [0, 1, 0, 1, 0, 1, 0, 1]) (accPV gcBalanced2) (.int 1) (.bool true)
+      (.int 5) PV.none (.bool false) (.bool false) = .ok r) :
+    ∃ (s : List Char) (c : Option (List Char)), r = encResultPV (s, c) ∧ isWalk gcBalanced2 1 s = true ∧
+      (s ≠ [] →
+        ((walkBits gcBalanced2 none 1 s).length = 8 ∨ (walkBits gcBalanced2 none 1 s).length = 8 + 1) ∧
+        (gcBalanced2.outDeg (walkEnd gcBalanced2 1 s.dropLast) = 2 ∨
+          gcBalanced2.outDeg (walkEnd gcBalanced2 1 s.dropLast) = 4)) :=
+  gen_C04_tight_fast gcBalanced2 none 1 _ 5 200 false r gc_wf gc_lt (tblOK_none _) msg_bits (by decide) h
+
+example : ∃ r, Gen.encode 200 (bitsPV [0, 1, 0, 1, 0, 1, 0, 1]) (accPV gcBalanced2) (.int 1) (.bool true)
+    (.int 5) PV.none (.bool false) (.bool false) = .ok r := ⟨_, gc_encode_fast⟩
+
+/-! ## C02 — every emitted strand obeys the constraints its graph was generated for
+
+The whole write path on generated code: `find_vertices` (any filter `P`) → `connect_coding_graph` → `encode`. -/
+
+namespace GraphCor
+
+/-- what `Gen.find_vertices … = .ok (maskPV false m)` says about the model. -/
+theorem find_of_gen {k : Nat} {P : List Char → Bool} {fuel : Nat} {verbose : Bool} {m : Mask}
+    (hf : 2 * k + 2 ≤ fuel)
+    (h : Gen.find_vertices fuel (.int (k : Int)) (tablePV k P) (.bool verbose) = .ok (maskPV false m)) :
+    findVertices k P = .ok m ∧ m.size = 4 ^ k := by
+  rw [tie_find_vertices k P fuel verbose hf] at h
+  obtain ⟨m', hm', he⟩ := map_ok_inv h
+  rw [maskPV_false_inj he]
+  exact ⟨hm', ((C11_mask k P).1 m' hm').1⟩
+
+end GraphCor
+
+/-- generated graphs are sub-graphs of the valid graph of the mask, for EVERY threshold `1 ≤ t`: every arc of
+the accessor the generated `connect_coding_graph` returns is a shift arc between two marked vertices, and every
+vertex its description lists is a marked vertex (`C02_generated_subgraph` / `E2E_generated_subgraph` about the
+generated code). -/
+theorem gen_C02_generated_subgraph (k t : Nat) (m : Mask) (asInt : Bool) (fuel : Nat) (verbose : Bool) (d : PV)
+    (a : Acc) (hk : 1 ≤ k) (hm : m.size = 4 ^ k) (ht : 1 ≤ t) (hf : 4 ^ k + 2 ≤ fuel)
+    (h : Gen.connect_coding_graph fuel (.int (k : Int)) (maskPV asInt m) (.int (t : Int)) (.bool verbose) =
+      .ok (.tup [d, accPV a])) :
+    SubGraphOf k a m ∧ ∀ v, Listed d t v → v < 4 ^ k ∧ m.getD v false = true := by
+  obtain ⟨vs, hc, -, hl, hlt, -⟩ := ccg_facts hk hm ht hf h
+  obtain ⟨s, ⟨-, hsub, -, -⟩, rfl, rfl, -, -⟩ := (model_C03 k t m hm hk ht).1 vs a hc
+  refine ⟨Windows.arcsIn_induced k s m hsub, fun v hv => ?_⟩
+  have hvs := (hl v).1 hv
+  exact ⟨hlt v hvs, hsub v (Trim.Mask.mem_indices.1 hvs)⟩
+
+/-- the same under the name of the end-to-end corollary. -/
+theorem gen_E2E_generated_subgraph (k t : Nat) (m : Mask) (asInt : Bool) (fuel : Nat) (verbose : Bool) (d : PV)
+    (a : Acc) (hk : 1 ≤ k) (hm : m.size = 4 ^ k) (ht : 1 ≤ t) (hf : 4 ^ k + 2 ≤ fuel)
+    (h : Gen.connect_coding_graph fuel (.int (k : Int)) (maskPV asInt m) (.int (t : Int)) (.bool verbose) =
+      .ok (.tup [d, accPV a])) :
+    SubGraphOf k a m ∧ ∀ v, Listed d t v → v < 4 ^ k ∧ m.getD v false = true :=
+  gen_C02_generated_subgraph k t m asInt fuel verbose d a hk hm ht hf h
+
+example : ∃ d, SubGraphOf 2 gcBalanced2 gcMask ∧ ∀ v, Listed d 2 v → v < 4 ^ 2 ∧ gcMask.getD v false = true := by
+  obtain ⟨d, hg, -⟩ := gc_ccg
+  exact ⟨d, gen_C02_generated_subgraph 2 2 gcMask false 18 false d gcBalanced2 (by decide) (by decide) (by decide)
+    (by decide) hg⟩
+
+/-- sentence 1 on the generated code, for EVERY filter predicate `P`, observed length, threshold, listed start
+vertex, table, message, mode and `vt_length`: if the generated `find_vertices` returned the mask, the generated
+`connect_coding_graph` returned `(d, a)` for that mask, and the generated `encode` returned `r` on that graph,
+then `r` is a strand `s` (with a check iff `vt_length > 0`) that is a walk of the graph, and every window of the
+observed length of `start k-mer ++ s` satisfies `P` — including the windows that overlap the virtual start
+vertex (`C02_windows` composed with `tie_find_vertices`, `tie_connect_coding_graph`, `tie_encode`). -/
+theorem gen_C02_windows (k t : Nat) (P : List Char → Bool) (m : Mask) (d : PV) (a : Acc) (v : Nat)
+    (tbl : Option Tbl) (bits : List Nat) (fast : Bool) (n ffuel gfuel fuel : Nat) (fvb gvb vb : Bool) (r : PV)
+    (hk : 1 ≤ k) (ht : 1 ≤ t) (hff : 2 * k + 2 ≤ ffuel) (hgf : 4 ^ k + 2 ≤ gfuel) (hf : 2 * n + 3 ≤ fuel)
+    (hfind : Gen.find_vertices ffuel (.int (k : Int)) (tablePV k P) (.bool fvb) = .ok (maskPV false m))
+    (hg : Gen.connect_coding_graph gfuel (.int (k : Int)) (maskPV false m) (.int (t : Int)) (.bool gvb) =
+      .ok (.tup [d, accPV a]))
+    (hv : Listed d t v) (htbl : TblOK tbl a) (hb : IsBits bits)
+    (henc : Gen.encode fuel (bitsPV bits) (accPV a) (.int (v : Int)) (.bool fast) (.int (n : Int)) (tblPV tbl)
+      (.bool false) (.bool vb) = .ok r) :
+    ∃ (s : List Char) (c : Option (List Char)), r = encResultPV (s, c) ∧ isWalk a (v : Int) s = true ∧
+      ∀ i, i + k ≤ (kmerOf k v ++ s).length → P (((kmerOf k v ++ s).drop i).take k) = true := by
+  obtain ⟨hfv, hm⟩ := find_of_gen hff hfind
+  obtain ⟨hsub, hlist⟩ := gen_C02_generated_subgraph k t m false gfuel gvb d a hk hm ht hgf hg
+  obtain ⟨hwf, hsz, hv4⟩ := listed_lt hk hm ht hgf hg hv
+  obtain ⟨s, c, hr, he⟩ := encode_of_gen hwf (by rw [hsz]; exact hv4) htbl hb hf henc
+  have hw := encode_isWalk hb he
+  exact ⟨s, c, hr, hw, C02_windows k P m a v s hk hfv hsub hv4 (hlist v hv).2 hw⟩
+
+example (r : PV) (h : Gen.encode 200 (bitsPV [0, 1, 0, 1, 0, 1, 0, 1]) (accPV gcBalanced2) (.int 1) (.bool true)
+      (.int 5) PV.none (.bool false) (.bool false) = .ok r) :
+    ∃ (s : List Char) (c : Option (List Char)), r = encResultPV (s, c) ∧ isWalk gcBalanced2 1 s = true ∧
+      ∀ i, i + 2 ≤ (kmerOf 2 1 ++ s).length → gcFilter (((kmerOf 2 1 ++ s).drop i).take 2) = true := by
+  obtain ⟨d, hg, hd⟩ := gc_ccg
+  exact gen_C02_windows 2 2 gcFilter gcMask d gcBalanced2 1 none _ true 5 6 18 200 false false false r (by decide)
+    (by decide) (by decide) (by decide) (by decide) gc_find_gen hg (gc_listed hd) (tblOK_none _) msg_bits h
+
+/-- sentence 2 on the generated code: for a window-decidable built-in filter configuration `c` with consistent GC
+thresholds (the table handed to `find_vertices` holds the answers of `c.valid · true` on the k-mers), the whole
+strand the generated `encode` returns — alone and prefixed with the start k-mer — passes the whole-sequence
+check (`C02_whole` composed with the three ties). -/
+theorem gen_C02_whole (c : FilterCfg) (t : Nat) (m : Mask) (d : PV) (a : Acc) (v : Nat)
+    (tbl : Option Tbl) (bits : List Nat) (fast : Bool) (n ffuel gfuel fuel : Nat) (fvb gvb vb : Bool) (r : PV)
+    (hc : c.WindowDecidable) (hgc : c.GcConsistent) (ht : 1 ≤ t) (hff : 2 * c.k + 2 ≤ ffuel)
+    (hgf : 4 ^ c.k + 2 ≤ gfuel) (hf : 2 * n + 3 ≤ fuel)
+    (hfind : Gen.find_vertices ffuel (.int (c.k : Int)) (tablePV c.k fun x => c.valid x true) (.bool fvb) =
+      .ok (maskPV false m))
+    (hg : Gen.connect_coding_graph gfuel (.int (c.k : Int)) (maskPV false m) (.int (t : Int)) (.bool gvb) =
+      .ok (.tup [d, accPV a]))
+    (hv : Listed d t v) (htbl : TblOK tbl a) (hb : IsBits bits)
+    (henc : Gen.encode fuel (bitsPV bits) (accPV a) (.int (v : Int)) (.bool fast) (.int (n : Int)) (tblPV tbl)
+      (.bool false) (.bool vb) = .ok r) :
+    ∃ (s : List Char) (ck : Option (List Char)), r = encResultPV (s, ck) ∧
+      c.valid s false = true ∧ c.valid (kmerOf c.k v ++ s) false = true := by
+  have hk := hc.1
+  obtain ⟨hfv, hm⟩ := find_of_gen hff hfind
+  obtain ⟨hsub, hlist⟩ := gen_C02_generated_subgraph c.k t m false gfuel gvb d a hk hm ht hgf hg
+  obtain ⟨hwf, hsz, hv4⟩ := listed_lt hk hm ht hgf hg hv
+  obtain ⟨s, ck, hr, he⟩ := encode_of_gen hwf (by rw [hsz]; exact hv4) htbl hb hf henc
+  exact ⟨s, ck, hr, C02_whole c m a v s hc hgc hfv hsub hv4 (hlist v hv).2 (encode_isWalk hb he)⟩
+
+example (r : PV) (h : Gen.encode 200 (bitsPV [0, 1, 0, 1, 0, 1, 0, 1]) (accPV gcBalanced2) (.int 1) (.bool false)
+      (.int 5) PV.none (.bool false) (.bool false) = .ok r) :
+    ∃ (s : List Char) (ck : Option (List Char)), r = encResultPV (s, ck) ∧
+      ({ k := 2, run := some 1, gc := some ⟨1, 1, 1⟩ } : FilterCfg).valid s false = true ∧
+      ({ k := 2, run := some 1, gc := some ⟨1, 1, 1⟩ } : FilterCfg).valid (kmerOf 2 1 ++ s) false = true := by
+  obtain ⟨d, hg, hd⟩ := gc_ccg
+  exact gen_C02_whole { k := 2, run := some 1, gc := some ⟨1, 1, 1⟩ } 2 gcMask d gcBalanced2 1 none _ false 5 6 18
+    200 false false false r ⟨by decide, fun r hr => by cases hr; decide, fun ms hms => by cases hms⟩
+    (fun g hg => by cases hg; decide) (by decide) (by decide) (by decide) (by decide) gc_find_gen hg
+    (gc_listed hd) (tblOK_none _) msg_bits h
+
+/-- the whole write path, total form: for any filter predicate `P`, observed length `k ≥ 1`, threshold `t ≥ 1`,
+listed start vertex, table and message of `L` bits, if the generated `find_vertices` and `connect_coding_graph`
+returned the mask and `(d, a)`, then the generated `encode` (normal mode, any fuel from `L·4^k + 3` on) RETURNS a
+strand `s` such that (1) `s` is a walk of the graph, (2) every window of `start k-mer ++ s` satisfies `P`, (3) `s`
+has at most `L·4^k` nucleotides (`E2E_write_read` without the decoding clause, which is `gen_C01_roundtrip`). -/
+theorem gen_E2E_write (k t : Nat) (P : List Char → Bool) (m : Mask) (d : PV) (a : Acc) (v : Nat)
+    (tbl : Option Tbl) (bits : List Nat) (ffuel gfuel fuel : Nat) (fvb gvb vb : Bool)
+    (hk : 1 ≤ k) (ht : 1 ≤ t) (hff : 2 * k + 2 ≤ ffuel) (hgf : 4 ^ k + 2 ≤ gfuel)
+    (hf : bits.length * 4 ^ k + 3 ≤ fuel)
+    (hfind : Gen.find_vertices ffuel (.int (k : Int)) (tablePV k P) (.bool fvb) = .ok (maskPV false m))
+    (hg : Gen.connect_coding_graph gfuel (.int (k : Int)) (maskPV false m) (.int (t : Int)) (.bool gvb) =
+      .ok (.tup [d, accPV a]))
+    (hv : Listed d t v) (htbl : TblOK tbl a) (hb : IsBits bits) :
+    ∃ s, Gen.encode fuel (bitsPV bits) (accPV a) (.int (v : Int)) (.bool false) (.int 0) (tblPV tbl)
+        (.bool false) (.bool vb) = .ok (cstr s) ∧
+      isWalk a (v : Int) s = true ∧
+      (∀ i, i + k ≤ (kmerOf k v ++ s).length → P (((kmerOf k v ++ s).drop i).take k) = true) ∧
+      s.length ≤ bits.length * 4 ^ k := by
+  obtain ⟨hfv, hm⟩ := find_of_gen hff hfind
+  obtain ⟨s, he, hw, hl⟩ := gen_C04_terminates_normal k t m false gfuel gvb d a v tbl bits fuel vb hk hm ht hgf hg
+    hv htbl hb hf
+  obtain ⟨hsub, hlist⟩ := gen_C02_generated_subgraph k t m false gfuel gvb d a hk hm ht hgf hg
+  exact ⟨s, he, hw, C02_windows k P m a v s hk hfv hsub (hlist v hv).1 (hlist v hv).2 hw, hl⟩
+
+example : ∃ s, Gen.encode 131 (bitsPV [0, 1, 0, 1, 0, 1, 0, 1]) (accPV gcBalanced2) (.int 1) (.bool false) (.int 0)
+      PV.none (.bool false) (.bool false) = .ok (cstr s) ∧
+    isWalk gcBalanced2 1 s = true ∧
+    (∀ i, i + 2 ≤ (kmerOf 2 1 ++ s).length → gcFilter (((kmerOf 2 1 ++ s).drop i).take 2) = true) ∧
+    s.length ≤ 8 * 4 ^ 2 := by
+  obtain ⟨d, hg, hd⟩ := gc_ccg
+  exact gen_E2E_write 2 2 gcFilter gcMask d gcBalanced2 1 none _ 6 18 131 false false false (by decide) (by decide)
+    (by decide) (by decide) (by decide) gc_find_gen hg (gc_listed hd) (tblOK_none _) msg_bits
 
 end Dsw.Tie
